@@ -122,6 +122,13 @@ func (s *objectStore) delete(o Object) {
 	}
 }
 
+func (s *objectStore) drop(of Object) {
+	s.Lock()
+	defer s.Unlock()
+
+	delete(s.m, stype(of))
+}
+
 func (s *objectStore) count(of Object) (n int) {
 	s.RLock()
 	defer s.RUnlock()
@@ -577,6 +584,12 @@ func (db *DB) Create(o Object, s Schema) (err error) {
 		// update existing schema with changes
 		if err = es.update(&s); err != nil {
 			return
+		}
+
+		// a cache which is no longer maintained must not be served
+		// if caching gets enabled again later on
+		if !es.mustCache() {
+			db.cache.drop(o)
 		}
 
 		return db.saveSchema(o, es, true)
